@@ -119,7 +119,8 @@ class PHModel:
         if s > self.max:
             self.max = s
         diff = (s - self.min) if self.direction == "positive" else (self.max - s)
-        check = self.cmp.gt(diff, theta, self.mag + abs(theta))
+        # running mean and cumulative sum are incremental in the implementation: exact ties are not decisive
+        check = self.cmp.gt(diff, theta, self.mag + abs(theta), zero_decisive=False)
         if check and n > self.burn_in:
             self.state = "drift"
         self.rows = n
